@@ -113,6 +113,8 @@ class Executor(Evaluator):
         if isinstance(target, ast.Name):
             st.env[target.id] = v
         elif isinstance(target, (ast.Tuple, ast.List)):
+            if isinstance(v, Opaque):
+                v = tuple(Opaque(f"{v.tag}[{k}]") for k in range(len(target.elts)))
             if not isinstance(v, tuple) or len(v) != len(target.elts):
                 raise Unsupported("tuple assignment shape")
             for t, x in zip(target.elts, v):
@@ -457,6 +459,8 @@ class Executor(Evaluator):
                 return self.reduce_anyall(st, args[0], attr)
             if attr == "copy":
                 return self.materialize(st, args[0], "copy")
+            if attr == "array" and args and isinstance(args[0], (Arr, AExpr)):
+                return self.materialize(st, args[0], "array")
             if attr == "equal":
                 return self.compare(st, ast.Eq(), args[0], args[1])
             if attr in ("zeros", "empty", "ones", "full"):
@@ -639,32 +643,45 @@ class Executor(Evaluator):
                     st.pc.append(z3.ForAll(ks_, z3.And(e_ >= lo_, e_ <= hi_)))
         # result
         rt = con.result
-        if rt == "int":
-            res = fresh_int(f"{callee}_res")
+        alts = []
+        if rt.startswith("opt:"):
+            s_none = st.fork()
+            alts = [(s_none, None), (st, self.fresh_value(rt[4:], f"{callee}_res", st, genv))]
+        elif rt == "int":
+            alts = [(st, fresh_int(f"{callee}_res"))]
         elif rt == "bool":
-            res = fresh_bool(f"{callee}_res")
+            alts = [(st, fresh_bool(f"{callee}_res"))]
         elif rt == "none":
-            res = None
+            alts = [(st, None)]
         else:
-            res = self.fresh_value(rt, f"{callee}_res", st, genv)
-        post = st.snapshot()
-        post.env = dict(cenv)
-        post.env["result"] = res
+            alts = [(st, self.fresh_value(rt, f"{callee}_res", st, genv))]
+        out = []
+        gvals = {}
         for gname in set(con.extra.get("ghost_calls", {}).values()):
-            gv = fresh_int(gname)
-            st.pc.append(gv >= 0)
-            post.env[gname] = gv
+            gvals[gname] = fresh_int(gname)
+            st.pc.append(gvals[gname] >= 0)
         for gname in set(con.extra.get("ghost_results", {}).values()):
-            post.env[gname] = fresh_int(gname)
-        post.ghost_env = genv
-        post.old = pre
-        for label, clause, tags in con.clauses("ensures"):
-            st.pc.append(zbool(truth(self.eval_spec(clause, post, {}))))
+            gvals[gname] = fresh_int(gname)
+        for s_alt, res in alts:
+            if s_alt is not st:
+                s_alt.pc = list(st.pc) if len(s_alt.pc) < len(st.pc) else s_alt.pc
+            post = s_alt.snapshot()
+            post.env = dict(cenv)
+            post.env["result"] = res
+            post.env.update(gvals)
+            post.ghost_env = genv
+            post.old = pre
+            for label, clause, tags in con.clauses("ensures"):
+                s_alt.pc.append(zbool(truth(self.eval_spec(clause, post, {}))))
+            if len(alts) > 1 and not self.prover.feasible(self.axioms + s_alt.pc):
+                continue
+            out.append((s_alt, res))
         self.used_contracts.add(con.qualname)
         gr = getattr(self.cur_contract, "extra", {}).get("ghost_results", {}) if self.cur_contract else {}
         if node is not None and isinstance(node.func, ast.Name) and node.func.id in gr and self.module is self.fi.module:
-            st.env[gr[node.func.id]] = res
-        return [(st, res)]
+            for s_alt, res in out:
+                s_alt.env[gr[node.func.id]] = res
+        return out
 
     used_contracts = set()
 
